@@ -158,6 +158,8 @@ class Job:
         self.status = "pending"   # ok | fail | inconclusive
         self.why = ""
         self.wall = 0.0
+        self.oom = False
+        self.rss_gb = None
 
 
 def crate_dir(scratch, spec):
@@ -203,7 +205,7 @@ def run_limited(cmd, cwd, logf, timeout_s, mem_gb):
     env = dict(os.environ)
     env["CARGO_NET_OFFLINE"] = "true"
     env.pop("RUSTFLAGS", None)
-    pre = "ulimit -v %d; exec " % int(mem_gb * 1024 * 1024)
+    pre = "ulimit -v %d; exec /usr/bin/time -f MAXRSS_KB=%%M -o '%s.rss' " % (int(mem_gb * 1024 * 1024), logf)
     sh = pre + " ".join("'" + c.replace("'", "'\\''") + "'" for c in cmd)
     t0 = time.time()
     with open(logf, "w") as fh:
@@ -252,6 +254,11 @@ def run_job(scratch, job, logdir, tier):
     cmd = kani_cmd(scratch, full, sp, extra, os.path.join(scratch, "kt_" + name))
     rc, timed_out, wall = run_limited(cmd, crate_dir(scratch, spec), logf, timeout_s, mem)
     job.wall = wall
+    job.oom = False
+    try:
+        job.rss_gb = int(re.search(r"MAXRSS_KB=(\d+)", open(logf + ".rss").read()).group(1)) / 1048576.0
+    except (OSError, AttributeError, ValueError):
+        job.rss_gb = None
     text = open(logf, errors="replace").read()
     res = parse_kani_output(text)
     job.result = res
@@ -290,6 +297,7 @@ def run_job(scratch, job, logdir, tier):
         job.status = "inconclusive"
         if "Out of memory" in text or "std::bad_alloc" in text or "run out of memory" in text or "ran out of memory" in text:
             job.why = "CBMC out of memory (cap %d GB)" % mem
+            job.oom = True
         else:
             job.why = "FAILED without failed checks (undetermined=%d)" % res["undetermined"]
         return
@@ -337,11 +345,12 @@ def resolve_unwindset(scratch, name, full, spec, logdir):
         if isinstance(line, tuple):
             # (source file, marker text): the loop that starts on the line holding the marker in the *current* source
             # (looked up on every run, so edits that shift lines do not break the bound)
-            src, marker = line
+            src, marker = line[0], line[1]
+            delta = line[2] if len(line) > 2 else 0   # loop head `delta` lines away from the (unique) marker text
             want = None
             for no, txt in enumerate(open(os.path.join(scratch, src), errors="replace"), 1):
                 if marker in txt:
-                    want = no
+                    want = no + delta
                     break
             hits = [l for l in hits if l[2] == want]
         elif line is not None:
@@ -359,17 +368,37 @@ def resolve_unwindset(scratch, name, full, spec, logdir):
 # ------------------------------------------------------------------------------------------------
 # scheduler
 # ------------------------------------------------------------------------------------------------
+def mem_estimate_gb(spec):
+    """expected peak RSS of the harness's CBMC process: measured values live in the registry (`rss_gb`); otherwise a third of
+    the cap.  Only used to keep the sum of concurrently running harnesses below the machine's memory."""
+    return float(spec.get("rss_gb", spec.get("mem_gb", 12) / 3.0))
+
+
+def mem_budget_gb():
+    try:
+        for ln in open("/proc/meminfo"):
+            if ln.startswith("MemTotal:"):
+                return max(8.0, int(ln.split()[1]) / 1048576.0 * 0.75)
+    except OSError:
+        pass
+    return 40.0
+
+
 def run_jobs(scratch, jobs, logdir, tier):
     lock = threading.Condition()
     free = [TOTAL_SLOTS]
+    budget = mem_budget_gb()
+    mem_free = [budget]
     order = sorted(jobs, key=lambda j: -j.spec.get("expect_s", 10))
 
-    def worker(job):
-        w = min(job.spec.get("weight", 1), TOTAL_SLOTS)
+    def worker(job, exclusive=False):
+        w = TOTAL_SLOTS if exclusive else min(job.spec.get("weight", 1), TOTAL_SLOTS)
+        m = budget if exclusive else min(mem_estimate_gb(job.spec), budget)
         with lock:
-            while free[0] < w:
+            while free[0] < w or mem_free[0] < m:
                 lock.wait()
             free[0] -= w
+            mem_free[0] -= m
         try:
             run_job(scratch, job, logdir, tier)
         except Exception as e:  # noqa
@@ -377,10 +406,15 @@ def run_jobs(scratch, jobs, logdir, tier):
             job.why = "runner exception: %r" % (e,)
         finally:
             # the per-harness target dir is no longer needed
-            shutil.rmtree(os.path.join(scratch, "kt_" + job.name), ignore_errors=True)
+            if not (getattr(job, "oom", False) and not exclusive):
+                shutil.rmtree(os.path.join(scratch, "kt_" + job.name), ignore_errors=True)
             with lock:
                 free[0] += w
+                mem_free[0] += m
                 lock.notify_all()
+        if getattr(job, "oom", False) and not exclusive:
+            log("  [retry] %-43s %6.1fs %s -> once more, alone" % (job.name, job.wall, job.why))
+            return
         log("  [%s] %-44s %6.1fs %s" % (job.status.upper()[:4], job.name, job.wall, job.why))
 
     threads = []
@@ -391,6 +425,13 @@ def run_jobs(scratch, jobs, logdir, tier):
         time.sleep(0.05)
     for t in threads:
         t.join()
+    # a harness that ran out of memory may have been squeezed by its neighbours (or by other processes on the machine):
+    # it gets one more run with the machine to itself before the result counts
+    for j in order:
+        if getattr(j, "oom", False):
+            j.status, j.why = "pending", ""
+            worker(j, exclusive=True)
+            shutil.rmtree(os.path.join(scratch, "kt_" + j.name), ignore_errors=True)
 
 
 # ------------------------------------------------------------------------------------------------
@@ -663,6 +704,7 @@ def write_evidence(pid, tier, seed, jobs, eb_results, wall, violations, known_li
             "cbmc_checks": nchecks, "harness_assertions": len(user), "failed": r.get("n_failed", 0),
             "cover_witnesses": sorted({"%s=%s" % (c["desc"] or c["id"], c["status"]) for c in r.get("covers", []) if c["status"] == "SATISFIED"}),
             "kani_verification_time_s": r.get("time_s"), "wall_s": round(j.wall, 1),
+            "peak_rss_gb": round(j.rss_gb, 2) if getattr(j, "rss_gb", None) else None,
         })
     for r in eb_results:
         if r["status"] in ("ok", "fail"):
